@@ -22,7 +22,8 @@ use harper_core::linting::{Lint, LintGroup, LintKind, Linter, Suggestion};
 use harper_core::{Dialect, Document, FstDictionary, Span};
 use serde_json::{Value, json};
 use std::sync::{Arc, Mutex};
-use tower_lsp::lsp_types::{CodeActionOrCommand, Position, Range, TextEdit, Url};
+use crate::lsclient::{LsError, LsSession, did_close, did_open, set_home};
+use tower_lsp::lsp_types::{CodeActionOrCommand, Diagnostic, Position, Range, TextEdit, Url};
 
 // ------------------------------------------------------------------------------------------
 // An independent LSP client (specification side of the oracle)
@@ -657,6 +658,148 @@ fn eval_real(sess: &mut Session, rw: &mut DocumentState, text: &str) {
     }
 }
 
+/// texts for the Backend stream: rule-test sentences behind prefixes that an editor buffer can
+/// start with (a byte-order mark, an astral character, an empty line, CRLF) — the server must
+/// interpret positions against exactly the text the client sent
+fn backend_texts(rng: &mut Rng, n: usize) -> Vec<String> {
+    let sents = crate::corpus::sentences();
+    let mut v: Vec<String> = vec![
+        "\u{feff}Ths is a test.\nThe secnd line is here.\n".into(),
+        "\u{feff}\u{feff}Ths is a test.\n".into(),
+        "Ths is\u{feff} a tset.\nMore text.\n".into(),
+        "😀 Ths is a test.\r\nThe secnd line.\r\n".into(),
+        "\nThs is a test.\n".into(),
+        "\u{feff}\r\nThs is a test.\r\n".into(),
+        "\u{feff}# Ths is a tset\n\nThe secnd line is here.\n".into(),
+    ];
+    const PRE: &[&str] = &["", "\u{feff}", "", "😀 ", "\u{feff}", "\r\n", "\u{feff} ", "é\u{301} ", "\t", "\u{feff}\n"];
+    for i in 0..n {
+        let k = rng.range(1, 3);
+        let mut t = PRE[i % PRE.len()].to_string();
+        for j in 0..k {
+            if j > 0 {
+                t.push_str(*rng.pick(&["\n", "\r\n", " ", " 😀 ", "\n\n"]));
+            }
+            t.push_str(&sents[rng.below(sents.len())]);
+        }
+        t.push_str(*rng.pick(&["\n", "\r\n", "\nok\n"]));
+        v.push(t);
+    }
+    v
+}
+
+/// One document through the REAL `Backend` (in process, over the LSP wire format): `didOpen` with
+/// `text`, then the published diagnostics read the way a client reads them must be the lints
+/// harper-core reports for that very text, and the quick fixes requested at every position of a
+/// flagged range, applied by a client to ITS text, must equal `Suggestion::apply`.
+fn eval_backend(sess: &mut Session, ls: &mut LsSession, n: usize, lang: &str, text: &str) -> Result<(), LsError> {
+    let cfg = json!({"harper-ls": {}});
+    let uri = format!("file:///c08-backend/doc{}.{}", n, if lang == "markdown" { "md" } else { "txt" });
+    let url = Url::parse(&uri).unwrap();
+    let src: Vec<char> = text.chars().collect();
+    ls.notify("textDocument/didOpen", did_open(&uri, lang, text))?;
+    ls.quiesce(&cfg)?;
+    let inp = |i: usize, s: usize, e: usize, p: Option<Position>| {
+        let mut v = input_json(&src, s, e, &[], "backend", i, p);
+        v["lang"] = json!(lang);
+        v
+    };
+    let Some(publ) = ls.last_publication(&uri).cloned() else {
+        sess.fail("no-publication", "didOpen was not answered by a publishDiagnostics".into(), inp(0, 0, 0, None), None);
+        return Ok(());
+    };
+    let diags: Vec<Diagnostic> = serde_json::from_value(publ.clone()).unwrap_or_default();
+    // what harper-core says about the client's text (default server configuration: curated rules,
+    // American, empty user and file dictionaries)
+    let dict = FstDictionary::curated();
+    let lints = match guarded(|| {
+        let doc = if lang == "markdown" { Document::new_markdown_default(text, &dict) } else { Document::new_plain_english(text, &dict) };
+        let mut g = LintGroup::new_curated(dict.clone(), Dialect::American);
+        g.config.fill_with_curated();
+        g.lint(&doc)
+    }) {
+        Ok(l) => l,
+        Err(_) => {
+            sess.count("backend:lint-panicked(C01)");
+            let _ = ls.notify("textDocument/didClose", did_close(&uri));
+            return Ok(());
+        }
+    };
+    sess.count(&format!("backend:lints:{}", lints.len().min(5)));
+    sess.count(if text.starts_with('\u{feff}') { "backend:starts-with-BOM" } else { "backend:no-BOM" });
+    let last_line_start = src.iter().rposition(|c| *c == '\n').map(|i| i + 1).unwrap_or(0);
+    let mut want: Vec<(usize, usize, String)> = lints.iter().map(|l| (l.span.start, l.span.end, l.message.clone())).collect();
+    let mut got: Vec<(usize, usize, String)> = diags.iter().map(|d| (client_offset(&src, d.range.start), client_offset(&src, d.range.end), d.message.clone())).collect();
+    want.sort();
+    got.sort();
+    sess.o();
+    if want != got {
+        let miss = want.iter().find(|w| !got.contains(w)).or(got.iter().find(|g| !want.contains(g))).cloned().unwrap_or_default();
+        let known_shape = src.iter().any(|c| *c == '\r') && src.windows(2).any(|w| w[0] == '\r' && w[1] != '\n') || (src.contains(&'\n') && (miss.0 >= last_line_start || miss.1 >= last_line_start));
+        let class = if known_shape { classify(&src, miss.1, src[..miss.1.min(src.len())].iter().filter(|c| **c == '\n').count(), "range-misplaced") } else { "range-misplaced".to_string() };
+        sess.fail(
+            &class,
+            format!("through the real Backend: the diagnostics a client reads ({:?}) are not harper-core's lints for the text it sent ({:?})", got.iter().take(4).collect::<Vec<_>>(), want.iter().take(4).collect::<Vec<_>>()),
+            inp(miss.0, miss.0, miss.1, None),
+            None,
+        );
+    } else {
+        sess.nontrivial(&format!("backend|{}", text));
+        // quick fixes at every position inside every flagged range
+        for lint in &lints {
+            let (s, e) = (lint.span.start, lint.span.end);
+            if !(s <= e && e <= src.len()) || inside_crlf(&src, s) || inside_crlf(&src, e) {
+                continue;
+            }
+            for i in s..e {
+                let Some(p) = client_encode(&src, i) else { continue };
+                let params = json!({"textDocument": {"uri": uri}, "range": {"start": {"line": p.line, "character": p.character}, "end": {"line": p.line, "character": p.character}}, "context": {"diagnostics": []}});
+                let resp = ls.request_sync("textDocument/codeAction", params, &cfg)?;
+                sess.o();
+                let acts: Vec<CodeActionOrCommand> = serde_json::from_value(resp["result"].clone()).unwrap_or_default();
+                let tes = text_edits(&acts, &url);
+                let mut ok = resp.get("error").is_none();
+                for sg in &lint.suggestions {
+                    let mut w = src.clone();
+                    if guarded(|| sg.apply(lint.span, &mut w)).is_err() {
+                        continue;
+                    }
+                    let title = sg.to_string();
+                    if !tes.iter().any(|(t, te)| *t == title && client_apply(&src, te) == w) {
+                        ok = false;
+                    }
+                }
+                if ok {
+                    sess.count("backend:actions-found");
+                } else {
+                    let class = classify(&src, i, p.line as usize, "code-action-missed");
+                    sess.fail(&class, format!("through the real Backend: code actions at {} (character {}) inside lint [{},{}) lack one of its fixes, answer with an error, or the fix applied by a client differs from Suggestion::apply", show_pos(p), i, s, e), inp(i, s, e, Some(p)), None);
+                }
+            }
+        }
+    }
+    ls.notify("textDocument/didClose", did_close(&uri))?;
+    Ok(())
+}
+
+fn run_backend(sess: &mut Session, ctx: &Ctx, texts: &[(String, String)]) {
+    set_home(&ctx.out.join("c08-home"));
+    let cfg = json!({"harper-ls": {}});
+    let r: Result<(), LsError> = (|| {
+        let mut ls = LsSession::start()?;
+        ls.initialize(&cfg)?;
+        for (n, (lang, t)) in texts.iter().enumerate() {
+            eval_backend(sess, &mut ls, n, lang, t)?;
+        }
+        ls.shutdown(&cfg)?;
+        Ok(())
+    })();
+    sess.monitor("the in-process language server completed the C08 session", r.is_ok());
+    if let Err(e) = r {
+        sess.count(&format!("backend:session-error:{}", e.to_string().chars().take(60).collect::<String>()));
+    }
+}
+
 pub fn run(ctx: &Ctx) {
     // Config::default() of harper-ls (not used here) and dirs: keep everything inside a temp HOME
     let mut sess = Session::new(ctx);
@@ -669,7 +812,10 @@ pub fn run(ctx: &Ctx) {
         let s = v["span"][0].as_u64().unwrap_or(0) as usize;
         let e = v["span"][1].as_u64().unwrap_or(0) as usize;
         w.set_text(&text);
-        if v["check"] == "real" {
+        if v["check"] == "backend" {
+            let t: String = text.iter().collect();
+            run_backend(&mut sess, ctx, &[(v["lang"].as_str().unwrap_or("plaintext").to_string(), t)]);
+        } else if v["check"] == "real" {
             let mut rw = real_world();
             eval_real(&mut sess, &mut rw, &text.iter().collect::<String>());
         } else {
@@ -756,8 +902,14 @@ pub fn run(ctx: &Ctx) {
         sess.count("origin:real");
     }
 
+    // 5. the same through the real Backend over the wire format (didOpen → publishDiagnostics →
+    //    codeAction), on texts that begin with a byte-order mark, an astral character, CRLF
+    let nb = if ctx.tier == Tier::Thorough { 400 } else { 50 };
+    let texts: Vec<(String, String)> = backend_texts(&mut rng, nb).into_iter().enumerate().map(|(i, t)| ((if t.contains("# ") || i % 7 == 6 { "markdown" } else { "plaintext" }).to_string(), t)).collect();
+    run_backend(&mut sess, ctx, &texts);
+
     sess.finish(
-        "corpus (pinned unit-test texts, finding witnesses); every text of length ≤5 (quick) / ≤6 (thorough) over {a, 😀, \\n, \\r} × every index (one out of bounds) × every position with line ≤4, col ≤8 × every span (incl. out of bounds) × 3 suggestion kinds × every caret and caret-to-end request inside the span; random texts of 0–40 pieces with astral/combining/ZWJ characters, tabs, CRLF, Unicode line separators (1 in 8 with lone \\r); real curated rules on rule-test sentences joined by \\n / \\r\\n. Non-trivial = text with a newline or a non-BMP character (exhaustive), every random text; distinct by text.",
+        "corpus (pinned unit-test texts, finding witnesses); every text of length ≤5 (quick) / ≤6 (thorough) over {a, 😀, \\n, \\r} × every index (one out of bounds) × every position with line ≤4, col ≤8 × every span (incl. out of bounds) × 3 suggestion kinds × every caret and caret-to-end request inside the span; random texts of 0–40 pieces with astral/combining/ZWJ characters, tabs, CRLF, Unicode line separators (1 in 8 with lone \\r); real curated rules on rule-test sentences joined by \\n / \\r\\n; the same through the real Backend (didOpen → publishDiagnostics → codeAction at every flagged position) on texts beginning with a byte-order mark / astral character / CRLF. Non-trivial = text with a newline or a non-BMP character (exhaustive), every random text; distinct by text.",
         true,
         json!({"exhaustive_scope": format!("texts of length ≤{} over {{a, U+1F600, LF, CR}}", maxlen)}),
     );
